@@ -182,6 +182,151 @@ def run(loader, R, tier):
     R.floor("factories with parameter-argument sites", len(factories), 40)
     R.floor("decided (site, kind) obligations", decided, 400)
 
+    # ---------------------------------------------------------------- R3.2
+    from selib.visitors import Visitors
+    R.rule("R3.2", "every raw Add::dict_add_term receives a coefficient-free "
+                   "term (key of an Add, split by as_coef_term, guarded or "
+                   "rebuilt with coefficient one, or a non-Mul node itself)")
+    add_key_typestate(prog, R, Visitors(prog))
+
+
+def add_key_typestate(prog, R, V):
+    """R3.2: Add::dict_add_term(d, c, t) is the raw insertion — it expects a
+    *coefficient-free* term t (not a Number, not a Mul carrying a numeric
+    coefficient); otherwise the Add gets a key like 2*sqrt(x) and is not
+    canonical.  Every call site must establish that, by one of the idioms
+    enumerated from the code base:
+      key      t is `.first` of an element of an Add dictionary (already a key)
+      split    t is the out-argument of Add::as_coef_term (coefficient split)
+      guarded  the site is under a test of is_a<Mul>(*t) / get_coef()->is_one()
+      rebuilt  t was last assigned from Mul::from_dict(one, ...)
+      self     t is rcp_from_this() of a node that is not a Mul (static type,
+               or the visitor dispatches Mul to its own handler)
+    """
+    from selib import sym as _sym
+    nsites = 0
+    for u, f in sorted(prog.functions.items(),
+                       key=lambda kv: (kv[1]["qn"], kv[1].get("line", 0))):
+        if f.get("dependent") or f.get("tk") == "pattern" \
+                or not f.get("body"):
+            continue
+        # locals that are out-arguments of as_coef_term
+        split = set()
+        rebuilt = {}
+        for n in walk(f["body"]):
+            if n.get("k") == "call" and n.get("n") == "as_coef_term":
+                for a in n.get("a", ())[1:]:
+                    for x in walk(a):
+                        if x.get("k") == "ref" and x.get("d") in ("local",
+                                                                  "param"):
+                            split.add(x["n"])
+            if n.get("k") in ("bin", "op") and n.get("op") == "=" \
+                    and len(n.get("a", ())) == 2 \
+                    and n["a"][0].get("k") == "ref":
+                rhs = n["a"][1]
+                while rhs.get("k") in ("cast", "ctor") and rhs.get("a"):
+                    rhs = rhs["a"][0]
+                rebuilt[n["a"][0]["n"]] = (
+                    rhs.get("k") == "call" and rhs.get("n") == "from_dict"
+                    and rhs.get("a") and show(rhs["a"][0]).rstrip(")").endswith(
+                        "one"))
+            if n.get("k") == "decl":
+                for v in n.get("v", ()):
+                    i = v.get("i")
+                    while i is not None and i.get("k") in ("cast", "ctor") \
+                            and i.get("a"):
+                        i = i["a"][0]
+                    if i is not None and i.get("k") == "call" \
+                            and i.get("n") == "from_dict" and i.get("a") \
+                            and show(i["a"][0]).rstrip(")").endswith("one"):
+                        rebuilt[v["n"]] = True
+
+        def cb(n, guards, line, f=f, split=split, rebuilt=rebuilt):
+            nonlocal nsites
+            if not (n.get("k") == "call" and n.get("n") == "dict_add_term"
+                    and len(n.get("a", ())) == 3
+                    and prog.header(n.get("u", "")).get("cls")
+                    == "SymEngine::Add"):
+                return
+            nsites += 1
+            t = n["a"][2]
+            while t.get("k") in ("cast", "ctor") and t.get("a"):
+                t = t["a"][0]
+            txt = show(t)
+            key = "%s@%s" % (short(f["qn"]), n.get("l"))
+            how = None
+            if t.get("k") == "mem" and t.get("m") == "first" \
+                    and "RCP<const SymEngine::Number>" in (t.get("c") or ""):
+                how = "key"
+            elif t.get("k") == "ref" and t.get("n") in split:
+                how = "split"
+            elif t.get("k") == "ref" and rebuilt.get(t.get("n")) \
+                    and any("is_a<Mul>(*%s)" % t["n"] in show(c)
+                            for c, _p in [g for g in guards
+                                          if g[0] != "case"]):
+                how = "rebuilt"
+            if how is None and t.get("k") == "ref":
+                for g in guards:
+                    if g[0] == "case":
+                        continue
+                    c, pol = g
+                    if "is_a<Mul>(*%s)" % t["n"] in show(c):
+                        how = "guarded"
+            if how is None and t.get("k") == "ref":
+                # a dominating dynamic type test for a class other than Mul
+                # (an Add or an atom as a key is canonical)
+                for g in _sym.flatten_guards(guards):
+                    if g[0] == "case":
+                        continue
+                    c, pol = g
+                    if pol and c.get("k") == "call" and c.get("n") == "is_a" \
+                            and c.get("ta") and strip_type(c["ta"][0]) \
+                            != "SymEngine::Mul" \
+                            and show(c["a"][0]).lstrip("*") == t["n"]:
+                        how = "type"
+            if how is None and t.get("k") == "ref" \
+                    and rebuilt.get(t.get("n")):
+                # normalised by a preceding `if (is_a<Mul>(*t) && !coef one)
+                # t = Mul::from_dict(one, ...)` statement: on the taken path
+                # t is rebuilt, on the other path the test failed
+                for st in walk(f["body"]):
+                    if st.get("k") == "if" and "is_a<Mul>(*%s)" % t["n"] \
+                            in show(st.get("c")) and not st.get("e") \
+                            and any(x.get("k") in ("bin", "op")
+                                    and x.get("op") == "="
+                                    and x.get("a")
+                                    and x["a"][0].get("k") == "ref"
+                                    and x["a"][0].get("n") == t["n"]
+                                    for x in walk(st.get("t") or {})):
+                        how = "normalised"
+            if how is None and t.get("k") == "mcall" \
+                    and t.get("n") == "rcp_from_this":
+                o = t.get("o") or {}
+                if o.get("k") == "ref" and o.get("d") == "param":
+                    st = strip_type(o.get("t", ""))
+                    cls = f.get("cls")
+                    if st not in ("SymEngine::Mul", "SymEngine::Basic"):
+                        how = "self"
+                    elif st == "SymEngine::Basic" and cls in V.table:
+                        h = V.handlers(cls).get("SymEngine::Mul")
+                        if h and h != f["u"]:
+                            how = "self"
+            R.instance("R3.2", key, sample={"site": show(n)[:80],
+                                            "term": txt[:40],
+                                            "established_by": how})
+            if how is None:
+                R.violation(
+                    "R3.2", "%s:%s" % (short(f["qn"]), txt[:30]),
+                    prog.loc(f, n.get("l")),
+                    "%s inserts `%s` into an Add dictionary with the raw "
+                    "Add::dict_add_term, but nothing establishes that it is "
+                    "coefficient-free (not a key of another Add, not split "
+                    "by as_coef_term, no is_a<Mul>/is_one test): a Mul with "
+                    "a numeric coefficient becomes a key and the Add is not "
+                    "canonical" % (short(f["qn"]), txt[:40]))
+        _sym.visit_guarded(f["body"], cb)
+    R.floor("Add::dict_add_term call sites", nsites, 20)
+
 
 MANIFEST = dict(
     technique="finite-domain abstract interpretation of factory functions "
